@@ -395,8 +395,9 @@ func (e *Engine) evalPure(st *State, fr *Frame, fn *ssa.Function, bind []Value, 
 	nf.Free = bind
 	nf.Params = args
 	type pr struct {
-		cond *smt.Term
-		v    Value
+		cond  *smt.Term
+		conds []*smt.Term
+		v     Value
 	}
 	var outs []pr
 	sideSeen := map[*smt.Term]bool{}
@@ -414,10 +415,58 @@ func (e *Engine) evalPure(st *State, fr *Frame, fn *ssa.Function, bind []Value, 
 				}
 			}
 		}
-		outs = append(outs, pr{e.C.And(conds...), pack(res)})
+		outs = append(outs, pr{e.C.And(conds...), conds, pack(res)})
 	})
 	if len(outs) == 0 {
 		e.fail("pure function %s has no returning path", fn)
+	}
+	// boolean results: rebuild the decision tree of the branch literals (paths come in
+	// depth-first order and share prefixes), so that common conjuncts are factored out
+	// by the smart constructor of ite and predicates like connInv stay conjunctions
+	allBool := true
+	for _, o := range outs {
+		if t, ok := o.v.(*smt.Term); !ok || t.Sort != smt.Bool {
+			allBool = false
+			break
+		}
+	}
+	if allBool {
+		var build func(lo, hi, depth int) *smt.Term
+		build = func(lo, hi, depth int) *smt.Term {
+			if hi-lo == 1 {
+				rest := outs[lo].conds[min(depth, len(outs[lo].conds)):]
+				return e.C.And(append(append([]*smt.Term(nil), rest...), outs[lo].v.(*smt.Term))...)
+			}
+			if depth >= len(outs[lo].conds) {
+				// should not happen (distinct paths differ in some literal); fall back
+				var ds []*smt.Term
+				for i := lo; i < hi; i++ {
+					ds = append(ds, e.C.And(e.C.And(outs[i].conds[min(depth, len(outs[i].conds)):]...), outs[i].v.(*smt.Term)))
+				}
+				return e.C.Or(ds...)
+			}
+			l := outs[lo].conds[depth]
+			mid := lo
+			for mid < hi && depth < len(outs[mid].conds) && outs[mid].conds[depth] == l {
+				mid++
+			}
+			if mid == hi {
+				return e.C.And(l, build(lo, hi, depth+1))
+			}
+			// the other side must start with the negation
+			nl := e.C.Not(l)
+			for i := mid; i < hi; i++ {
+				if depth >= len(outs[i].conds) || outs[i].conds[depth] != nl {
+					var ds []*smt.Term
+					for j := lo; j < hi; j++ {
+						ds = append(ds, e.C.And(e.C.And(outs[j].conds[min(depth, len(outs[j].conds)):]...), outs[j].v.(*smt.Term)))
+					}
+					return e.C.Or(ds...)
+				}
+			}
+			return e.C.Ite(l, build(lo, mid, depth+1), build(mid, hi, depth+1))
+		}
+		return build(0, len(outs), 0)
 	}
 	res := outs[len(outs)-1].v
 	for i := len(outs) - 2; i >= 0; i-- {
